@@ -1,23 +1,44 @@
 #!/bin/bash
 # Must-fail corpus: each mutant is a patch that breaks a property while compiling; the check for
-# that property must exit 1 on the patched tree. Runs against a scratch git worktree of /repo
-# (outside /repo and /verif), removed afterwards. Usage: selftest/run.sh [pattern]
+# that property must exit 1 on the patched tree. Runs against scratch git worktrees of /repo
+# (outside /repo and /verif), removed afterwards. Usage: selftest/run.sh [pattern]   (JOBS=n runs n mutants at a time)
 set -u
 export GOFLAGS=-mod=mod GOPROXY=off GOSUMDB=off GOTOOLCHAIN=local
+JOBS=${JOBS:-3}
 W=$(mktemp -d /tmp/gocv-selftest.XXXXXX)
-trap 'git -C /repo worktree remove --force "$W/wt" >/dev/null 2>&1; rm -rf "$W"' EXIT
-git -C /repo worktree add --detach "$W/wt" HEAD >/dev/null 2>&1 || { echo "cannot create worktree"; exit 2; }
-fail=0
-for p in /verif/selftest/mutants/*${1:-}*.patch; do
+cleanup() {
+  for d in "$W"/wt*; do [ -d "$d" ] && git -C /repo worktree remove --force "$d" >/dev/null 2>&1; done
+  rm -rf "$W"
+}
+trap cleanup EXIT
+one() {
+  p=$1; slot=$2; W=$3
+  wt="$W/wt$slot"
   prop=$(grep -m1 '^# property:' "$p" | awk '{print $3}')
   expect=$(grep -m1 '^# expect:' "$p" | cut -d' ' -f3-)
-  git -C "$W/wt" checkout -q -- . ; git -C "$W/wt" clean -fdq
-  if ! git -C "$W/wt" apply "$p" 2>/dev/null; then echo "SKIP $(basename $p): patch does not apply"; fail=1; continue; fi
-  out=$(GOCV_TIMEOUT=8 GOCV_REPO="$W/wt" GOCV_OUT="$W/out" /verif/bin/gocv check "$prop" --tier quick 2>&1); rc=$?
+  git -C "$wt" checkout -q -- . ; git -C "$wt" clean -fdq
+  if ! git -C "$wt" apply "$p" 2>/dev/null; then echo "SKIP $(basename $p): patch does not apply"; return 1; fi
+  out=$(GOCV_TIMEOUT=8 GOCV_REPO="$wt" GOCV_OUT="$W/out$slot" /verif/bin/gocv check "$prop" --tier quick 2>&1); rc=$?
   if [ $rc -eq 1 ] && echo "$out" | grep -q "^VIOLATION property=$prop" && { [ -z "$expect" ] || echo "$out" | grep -q "$expect"; }; then
-    echo "ok   $(basename $p) -> $prop: $(echo "$out" | grep -c '^VIOLATION') violation line(s); first: $(echo "$out" | grep -m1 '^VIOLATION' | sed 's/.*obligation=//' | cut -c1-140)"
-  else
-    echo "MISS $(basename $p) -> $prop rc=$rc"; echo "$out" | tail -3; fail=1
+    first=$(echo "$out" | grep -m1 '^VIOLATION')
+    replayed=""; echo "$out" | grep '^VIOLATION' | grep -qv 'no-failing-input-found' && replayed=" [replayed on the real code]"
+    echo "ok   $(basename $p) -> $prop: $(echo "$out" | grep -c '^VIOLATION') violation line(s)$replayed; first: $(echo "$first" | sed 's/.*obligation=//' | cut -c1-140)"
+    return 0
   fi
+  echo "MISS $(basename $p) -> $prop rc=$rc"; echo "$out" | tail -3
+  return 1
+}
+export -f one
+for s in $(seq 1 $JOBS); do
+  git -C /repo worktree add --detach "$W/wt$s" HEAD >/dev/null 2>&1 || { echo "cannot create worktree"; exit 2; }
 done
+# each slot handles every JOBS-th mutant
+ls /verif/selftest/mutants/*${1:-}*.patch > "$W/list"
+fail=0
+pids=()
+for s in $(seq 1 $JOBS); do
+  ( bad=0; i=0; while read -r p; do i=$((i+1)); if [ $(( (i-1) % JOBS + 1 )) -eq $s ]; then one "$p" "$s" "$W" || bad=1; fi; done < "$W/list"; exit $bad ) &
+  pids+=($!)
+done
+for pid in "${pids[@]}"; do wait $pid || fail=1; done
 exit $fail
